@@ -165,13 +165,16 @@ def handle (j : Json) : R Json := do
           ("call", outcomeToJson (some mcall)), ("recall", outcomeToJson mrecall)]),
         ("judge", jstrs verdict)]
   | "change" =>
-    -- a `change` request through the real dispatcher: stored value / error class, with the witness hint
+    -- a value carried into a real node: `change` on a parameter holding `held`, or (held = null) `do` with an argument;
+    -- stored / received value or error class, with the witness hint
     let dt ← dtypeOfJson (← fld j "dt")
     let cand ← jvalOfJson (← fld j "cand")
-    let held ← pvalOfJson (← fld j "held")
+    let held ← optPVal (← fld j "held")
     let hint ← optPVal (← fld j "hint")
     let out ← outcomeOfJson (← fld j "out")
-    let m := outcomeOfRes (changeValue dt cand held)
+    let m := match held with
+      | some h => outcomeOfRes (changeValue dt cand h)
+      | none => outcomeOfRes (acceptWire dt cand none)
     let verdict := match out with
       | some o => judgeChange dt cand held hint o
       | none => ["change:missing"]
